@@ -195,6 +195,36 @@ theorem mem_swap01 {γ : Type} (l : List γ) (x : γ) : x ∈ swap01 l ↔ x ∈
   | [_] => exact Iff.rfl
   | a :: b :: r => simp only [swap01, List.mem_cons]; tauto
 
+/-! ### `max` of a row -/
+
+theorem foldl_max_spec {α : Type} [LinearOrder α] (xs : List α) (x : α) :
+    (xs.foldl (fun m y => if m < y then y else m) x ∈ x :: xs) ∧
+      ∀ y ∈ x :: xs, y ≤ xs.foldl (fun m y => if m < y then y else m) x := by
+  induction xs generalizing x with
+  | nil => simp
+  | cons z zs ih =>
+    simp only [List.foldl_cons]
+    obtain ⟨h1, h2⟩ := ih (if x < z then z else x)
+    constructor
+    · rcases List.mem_cons.1 h1 with h | h
+      · rw [h]; split_ifs <;> simp
+      · exact List.mem_cons_of_mem _ (List.mem_cons_of_mem _ h)
+    · intro y hy
+      have hx : (if x < z then z else x) ≤
+          zs.foldl (fun m y => if m < y then y else m) (if x < z then z else x) :=
+        h2 _ List.mem_cons_self
+      rcases List.mem_cons.1 hy with rfl | hy
+      · refine le_trans ?_ hx
+        split_ifs with h
+        · exact h.le
+        · exact le_refl _
+      · rcases List.mem_cons.1 hy with rfl | hy
+        · refine le_trans ?_ hx
+          split_ifs with h
+          · exact le_refl _
+          · exact not_lt.1 h
+        · exact h2 y (List.mem_cons_of_mem _ hy)
+
 /-! ### list-fold sums as `Finset` sums -/
 
 theorem foldl_add_eq_sum {β : Type} [AddCommMonoid β] (h : Nat → β) (d : Nat) :
